@@ -259,6 +259,72 @@ def r2_dispatch(ck, prog, run):
             found = str([{k: str(v)[:50] for k, v in a.items() if not isinstance(v, NoneV)} for a in fa[:2]])
         ck.same("R2", f.where, tag, "the single-double quotient is only a coarse estimate: divisor*quotient is rebuilt as a two-part Phase and subtracted part-wise (exact correction)",
                 ok, found=found, nontrivial=True)
+        # -- the refinement step and what is handed back
+        if not ok:
+            continue
+        R = lambda k, w: sp.Symbol(f"R{k}_{w}", real=True)
+        FD = sp.Function("Ufunc_floor_divide_0")
+        fd0 = FD(part(p, "int").expr + part(p, "frac").expr, c * CYCLE)
+        fdx = FD(R(2, "frac") * CYCLE + R(2, "int") * CYCLE, c * CYCLE)
+        second = coarse[1] if len(coarse) > 1 else None
+        ok2 = second is not None and len(second[2]) == 2 and all(isinstance(x, Num) for x in second[2]) \
+            and sp.simplify(second[2][0].expr - (R(2, "int") + R(2, "frac")) * CYCLE) == 0 and sp.simplify(second[2][1].expr - c * CYCLE) == 0
+        if second is None or len(fa) != 4:
+            ck.unk("R2", f.where, tag + ": refinement", "the refinement has the known skeleton (coarse quotient, exact remainder, residual quotient, exact remainder)",
+                   f"{len(coarse)} coarse quotients, {len(fa)} from_angles calls: another algorithm, not decided here")
+            continue
+        ck.same("R2", f.where, tag + ": refinement", "the residual quotient is floor_divide(first remainder as one double, divisor), operands in that order",
+                ok2, found=str([str(x)[:70] for x in (second[2] if second else [])]), nontrivial=True)
+        ok3 = len(fa) >= 4 and isinstance(fa[2]["factor"], Num) and sp.simplify(fa[2]["factor"].expr - (fd0 + fdx)) == 0 \
+            and isinstance(fa[2]["phase1"], Num) and sp.simplify(fa[2]["phase1"].expr - c * CYCLE) == 0 \
+            and isinstance(fa[3]["phase1"], Num) and fa[3]["phase1"].expr == U(part(p, "int").expr, R(3, "int") * CYCLE) \
+            and isinstance(fa[3]["phase2"], Num) and fa[3]["phase2"].expr == U(part(p, "frac").expr, R(3, "frac") * CYCLE)
+        ck.same("R2", f.where, tag + ": refinement", "a non-zero residual quotient is added to the quotient and the remainder is recomputed exactly from the corrected quotient",
+                ok3, found=str([{k: str(v)[:50] for k, v in a.items() if not isinstance(v, NoneV)} for a in fa[2:4]]), nontrivial=True)
+
+        def at(expr, nz):
+            """The term with the undecided test `count_nonzero(residual quotient)` fixed to zero / non-zero."""
+            e_ = expr
+            for a_ in list(e_.atoms(sp.Function)):
+                if a_.func.__name__ == "CountNonzero":
+                    e_ = e_.subs(a_, sp.Integer(1 if nz else 0))
+            return sp.simplify(e_)
+
+        def quotient_ok(v):
+            return isinstance(v, Num) and sp.simplify(at(v.expr, False) - fd0) == 0 and sp.simplify(at(v.expr, True) - (fd0 + fdx)) == 0
+
+        def remainder_ok(v):
+            if not (isinstance(v, ObjV) and "_pint" in v.attrs):
+                return False
+            return all(sp.simplify(at(v.attrs["_p" + w].expr, False) - R(2, w)) == 0 and sp.simplify(at(v.attrs["_p" + w].expr, True) - R(4, w)) == 0 for w in ("int", "frac"))
+        if name == "floor_divide":
+            ok4 = quotient_ok(res)
+        elif name == "remainder":
+            ok4 = remainder_ok(res)
+        else:
+            ok4 = isinstance(res, TupleV) and len(res.items) == 2 and quotient_ok(res.items[0]) and remainder_ok(res.items[1])
+        ck.same("R2", f.where, tag + ": result", "floor_divide hands back the (corrected) quotient, remainder the exact two-part remainder belonging to it, divmod both in that order",
+                ok4, found=str(res)[:160], nontrivial=True)
+    # ---- the same family with out=: the caller's arrays receive the results
+    for name, mk in (("divmod", lambda A, P: [A, P]), ("floor_divide", lambda A, P: [A]), ("remainder", lambda A, P: [P])):
+        n_fam += 1
+        p, P = make_phase(prog, "p"), make_phase(prog, "o")
+        A = Num(sp.Symbol("A", real=True), kind="array")
+        tag = f"np.{name}(Phase, Quantity in cycles, out=...)"
+        r = attempt(tag, lambda: run_uf(prog, name, [p, d], 0, {"out": TupleV(mk(A, P))}))
+        if r is None:
+            continue
+        res, events, calls, ev = r
+        fa = [e[1] for e in events if e[0] == "from_angles"]
+        coarse = [t for t in calls if t[1] == "floor_divide"]
+        want_q, want_p = name != "remainder", name != "floor_divide"
+        got_q = bool(coarse) and coarse[0][3].get("out") is A
+        got_p = bool(fa) and fa[0].get("out") is P
+        same_buf = lambda v: isinstance(v, ObjV) and isinstance(v.attrs.get("_buf"), StrV) and v.attrs["_buf"].s == P.attrs["_buf"].s
+        back = (same_buf(res) if name == "remainder" else same_buf(res.items[1]) if name == "divmod" and isinstance(res, TupleV) and len(res.items) == 2 else True)
+        ok = (got_q == want_q or not want_q) and (not want_q or got_q) and (not want_p or (got_p and back))
+        ck.same("R2", f.where, tag, "the quotient is computed into the caller's array and the remainder into the caller's Phase (which is also what is handed back)",
+                ok, found=f"quotient into caller's array: {got_q}; correction built in caller's Phase: {got_p}; handed back: {back}", nontrivial=True)
     # ---- add / subtract of n-d phases without out=: the result must not be written into an operand's buffer
     K3 = sp.Integer(3)
     for name in ("add", "subtract"):
@@ -424,20 +490,25 @@ def r3_r4_from_angles(ck, prog, run):
             return got
         return got
     n = 0
-    for a in (False, True):
-        for b in (False, True):
-            for kind in ("factor", "divisor"):
-                for ctyped in ((False, True) if not b else (False,)):
+    combos = [(a, b, kind, ctyped, None) for a in (False, True) for b in (False, True) for kind in ("factor", "divisor")
+              for ctyped in ((False, True) if not b else (False,))]
+    # an imaginary phase whose count (or fraction) is exactly zero: that part is an all-zero complex number, which is both
+    # "purely real" and "purely imaginary"; it must be read in the way that agrees with the other part
+    combos += [(True, b, kind, False, zero) for zero in ("count", "fraction") for b in (False, True) for kind in ("factor", "divisor")]
+    for a, b, kind, ctyped, zero in combos:
+        if True:
+            if True:
+                if True:
                     n += 1
-                    pe, pdt = val(P1, a)
-                    p2e, _ = val(P2, a)
+                    pe, pdt = val(P1 if zero != "count" else sp.Integer(0), a)
+                    p2e, _ = val(P2 if zero != "fraction" else sp.Integer(0), a)
                     fe, fdt = val(Fv if kind == "factor" else Dv, b, ctyped)
                     # the same angles, held in cycles or (every other combination) in degrees: from_angles must read them as cycles
                     rep = CYCLE if (n % 2) else sp.pi / 180
                     ph1 = Num(pe * CYCLE, kind="quantity", unit=rep, dtype=ExtV(pdt))
                     ph2 = Num(p2e * CYCLE, kind="quantity", unit=rep, dtype=ExtV(pdt))
                     fv = Num(fe, dtype=ExtV(fdt))
-                    tag = f"from_angles({'imaginary' if a else 'real'} phase in {'cycles' if rep == CYCLE else 'degrees'}, {kind}={'imaginary' if b else ('real, complex-typed' if ctyped else 'real')})"
+                    tag = f"from_angles({'imaginary' if a else 'real'} phase{' with zero ' + zero if zero else ''} in {'cycles' if rep == CYCLE else 'degrees'}, {kind}={'imaginary' if b else ('real, complex-typed' if ctyped else 'real')})"
                     try:
                         got = capture([ph1, ph2], {kind: fv})
                     except (Raised, Unsupported, DimensionError) as e:
@@ -465,7 +536,7 @@ def r3_r4_from_angles(ck, prog, run):
                         true = (pe + p2e) / fe
                     ck.eq("R4", fa.where, tag + ": sign and flag", "the stored flag and the real numbers handed to day_frac represent i^a*i^b (resp. i^a/i^b) times the magnitudes: i*i = -1",
                           represented, true)
-    run.floor("R4", "real/imaginary combinations of from_angles", n, 12)
+    run.floor("R4", "real/imaginary combinations of from_angles", n, 20)
     # R3 storage: whatever the shapes of the parts, the factor and the divisor, both parts of the result are stored in a
     # record array of their (broadcast) shape - nothing raises, nothing is truncated
     K3 = sp.Integer(3)
